@@ -27,9 +27,9 @@ from .replayset import collect as _collect
 
 def main(run):
     q = run.tier == "quick"
-    scale = 0.05 if q else 0.25
+    scale = 0.05 if q else 0.15
     every = {"c13": 8, "c16": 6, "c02": 5, "c17": 4, "c01": 3, "c05_zz": 3, "c05_pp": 2, "c06": 6, "c12": 4, "c08": 2, "c04": 2} if q else \
-            {"c13": 2, "c16": 2, "c06": 2}
+            {"c13": 4, "c16": 3, "c06": 3, "c02": 2, "c17": 2, "c12": 2}
     base, missing = _collect(MODULES, "quick", scale, every, run.seed)
     js = []
     for j in base:
